@@ -92,3 +92,30 @@ func (c *CEnv) lookupPureFn(name string) (*ssa.Function, *FuncContract, *PkgInfo
 }
 
 var _ = types.Typ
+
+// lookupNamedType resolves "T" or "pkg.T" (no leading '*') to a named type visible from pkg.
+func lookupNamedType(pkg *PkgInfo, name string) types.Type {
+	if pkg == nil || strings.HasPrefix(name, "*") {
+		return nil
+	}
+	scope := pkg.Types.Scope()
+	if i := strings.Index(name, "."); i >= 0 {
+		found := false
+		for _, imp := range pkg.Types.Imports() {
+			if imp.Name() == name[:i] {
+				scope = imp.Scope()
+				found = true
+			}
+		}
+		if !found {
+			return nil
+		}
+		name = name[i+1:]
+	}
+	if obj := scope.Lookup(name); obj != nil {
+		if tn, ok := obj.(*types.TypeName); ok {
+			return tn.Type()
+		}
+	}
+	return nil
+}
